@@ -111,6 +111,9 @@ unsigned long g_expected;
 /* the recorded product agrees with the ghost term up to factor i (loop 3) */
 #define FACT_UPTO(k, i) ((k) < (i) ==> (tmp.cr[k] == IS_CREATION(k) && tmp.idx[k] == g_gidx[k]))
 #define LST (self->L->Terms)
+/* twins for the other spelling of an increment (`++it` for `it++` and vice versa): same effect.  X_inc yields the iterator after the step
+ * (exact); X_postinc made from X_inc is void, so a use of its value does not compile (UNDECIDED) instead of being modelled wrongly */
+#define TListIt_postinc(it_) ((void)TListIt_inc(it_))
 //@function Pomerol::IndexHamiltonian::prepare() as IndexHamiltonian_prepare
 //@contract
 __CPROVER_requires(__CPROVER_is_fresh(self, sizeof(*self)) && __CPROVER_is_fresh(self->L, sizeof(struct Lattice)) && __CPROVER_is_fresh(self->L->Terms, sizeof(struct TermStorage)))
